@@ -194,10 +194,12 @@ func (o *Observation[C]) handle(r *pool.Message) {
 		}
 		o.respObservationChan = nil
 	}
+	// decided before the callback runs: the callback may take the message over and release it
+	ended := !first && (r.Code() >= codes.BadRequest || !r.HasOption(message.Observe))
 	if o.wantBeNotified(r) {
 		o.observeFunc(r)
 	}
-	if !first && (r.Code() >= codes.BadRequest || !r.HasOption(message.Observe)) {
+	if ended {
 		// An error response or a response without the Observe option that follows the registration tells the
 		// client that the server has removed it from the list of observers (RFC 7641 3.2, 4.2): the observation
 		// has ended, nothing more will come for it. (The answer to the registration itself is judged by
